@@ -56,11 +56,11 @@ impl LspProject {
                     .collect());
             }
 
-            return Ok(result
+            let absolute = result
                 .0
                 .into_iter()
-                .filter_map(|tok| LspTokenType(tok).into())
-                .collect());
+                .filter_map(|tok| LspTokenType(tok).into());
+            return Ok(relative_positions(absolute));
         } else {
             error!("URL must be convertible to a file path {}", url);
         }
@@ -88,6 +88,31 @@ impl LspProject {
 
         vec![]
     }
+}
+
+/// Converts tokens having absolute line and column positions into the
+/// protocol's representation where each token's position is relative to
+/// the token before it.
+fn relative_positions(tokens: impl Iterator<Item = SemanticToken>) -> Vec<SemanticToken> {
+    let mut prev_line = 0;
+    let mut prev_start = 0;
+    tokens
+        .map(|tok| {
+            let (line, start) = (tok.delta_line, tok.delta_start);
+            let relative = SemanticToken {
+                delta_line: line - prev_line,
+                delta_start: if line == prev_line {
+                    start - prev_start
+                } else {
+                    start
+                },
+                ..tok
+            };
+            prev_line = line;
+            prev_start = start;
+            relative
+        })
+        .collect()
 }
 
 // Token types that this produces.
